@@ -517,3 +517,34 @@ Proof.
   destruct (composite_roundtrip m2 g b rest c2 Hok Hb Hg2 Hat) as [c3 [E3 A3]].
   rewrite Hnorm in E3. exists c3. split; assumption.
 Qed.
+
+(* ============================================================ Glyph::write / Glyph::read dispatch *)
+Definition glyph_ok_full (g : glyph) : Prop :=
+  match g with GEmpty => False | GSimple s => glyph_ok s | GComposite c => cg_ok c end.
+Definition glyph_norm_full (g : glyph) : glyph :=
+  match g with GEmpty => GEmpty | GSimple s => GSimple (glyph_norm s) | GComposite c => GComposite (cg_norm c) end.
+
+(* the simple-glyph-only reader of Model/Tables.v is the restriction of the full one *)
+Lemma glyph_read_full_simple m c s c' :
+  glyph_read m c = Ok (Some s, c') -> glyph_read_full m c = Ok (GSimple s, c').
+Proof.
+  unfold glyph_read, glyph_read_full. intros H.
+  destruct (read_prim PI16 c) as [[nc c1]| | |]; cbn [bind] in *; try discriminate.
+  destruct (0 <=? nc); [|discriminate].
+  destruct (simple_glyph_read m c1 nc) as [[g c2]| | |]; cbn [bind] in *; try discriminate.
+  apply Ok_inj_g in H. injection H as <- <-. reflexivity.
+Qed.
+
+(* Theorem: Glyph::write followed by Glyph::read returns the same variant and the same glyph up to
+   the two normalisations (simple: flags reduced to ON_CURVE_POINT; composite: instructions only when
+   flagged).  numberOfContours is -1 in the file for every composite glyph: it is not part of the
+   parsed value (the reader takes any negative value). *)
+Theorem glyph_roundtrip m g b rest c :
+  glyph_ok_full g -> glyph_write_full g = Ok b -> cgood c -> at_bytes c (b ++ rest) ->
+  exists c', glyph_read_full m c = Ok (glyph_norm_full g, c') /\ advanced c c' rest.
+Proof.
+  destruct g as [|s|cg]; cbn [glyph_ok_full glyph_write_full glyph_norm_full]; intros Hok H Hg Hat; [contradiction| |].
+  - destruct (simple_glyph_roundtrip m s b rest c Hok H Hg Hat) as [c' [E A]].
+    exists c'. split; [apply glyph_read_full_simple; exact E|exact A].
+  - exact (composite_roundtrip m cg b rest c Hok H Hg Hat).
+Qed.
